@@ -221,6 +221,13 @@ example : (parseLines ',' (splitP univ "a\rb".toList)).toOption = some [["a".toL
     (parseLines ',' (splitP univ "\"p\rq\r\nr\",1\r\n".toList)).toOption = some [["p\rq\r\nr".toList, "1".toList]] := by decide
 
 open Serif.CsvLex in
+/-- a text without carriage returns is read the same from every kind of source (path, file object, StringIO): all admissible
+    policies cut it at `'\n'` only, and the line-driven reader then is the character-stream reader -/
+theorem source_kind_irrelevant_without_cr (d : Char) (inj : Char → List Char → Bool) (p : Policy inj) (t : List Char)
+    (h : ∀ c ∈ t, c ≠ '\r') : parseLines d (splitP inj t) = parseText d t :=
+  parseP_eq_of_no_cr d inj p t h
+
+open Serif.CsvLex in
 /-- line-driven and character-driven reading agree on every text, well-formed or not (including the texts the reader rejects) -/
 theorem lexer_lines_eq_stream (d : Char) (t : List Char) : parseLines d (splitLF t) = parseText d t :=
   parseLines_splitLF d t
